@@ -20,7 +20,7 @@ def _dump(x):
 
 
 def build(nargs, ndefaults, has_self, kwonly, in_method):
-    names = (["self"] if has_self else []) + ["p%d" % i for i in range(nargs)]
+    names = ([("self", "self", "cls")[has_self]] if has_self else []) + ["p%d" % i for i in range(nargs)]
     total = len(names)
     parts = []
     for j, n in enumerate(names):
@@ -115,12 +115,12 @@ def sync(nargs, ndefaults, t, has_self, same_name, has_value, wrap, kwonly, in_m
 for _na, _tier in ((1, "quick"), (2, "quick"), (3, "quick"), (4, "thorough"), (5, "thorough")):
     for _meth in (False, True):
         ob("C13", "K1.param_target.n%d%s" % (_na, ".method" if _meth else ""),
-           {"nargs": R(_na, _na), "ndefaults": R(0, _na), "t": R(0, _na - 1), "has_self": BOOL if _meth else R(0, 0), "same_name": BOOL,
+           {"nargs": R(_na, _na), "ndefaults": R(0, _na), "t": R(0, _na - 1), "has_self": R(0, 2) if _meth else R(0, 0), "same_name": BOOL,
             "has_value": BOOL, "wrap": BOOL, "kwonly": BOOL, "in_method": R(1, 1) if _meth else R(0, 0)},
            tier=_tier, T=400, tpath=60, funcs=FUNCS,
            bound="output %s with %d positional parameters%s, ANY number (0..%d) of right-aligned defaults, optional keyword-only tail, "
                  "ANY target index; input = annotated class attribute with the same or another name, with/without value; wrap template on/off "
-                 "(finite shape space enumerated by the solver)" % ("method" if _meth else "function", _na, " (+ self or static)" if _meth else "", _na))(sync)
+                 "(finite shape space enumerated by the solver)" % ("method" if _meth else "function", _na, " (+ self / cls / static)" if _meth else "", _na))(sync)
 
 
 # class-attribute target -------------------------------------------------------------------------------------
